@@ -42,10 +42,13 @@ type Statement struct {
 type Checkpoint int
 
 func (s *Statement) Checkpoint() Checkpoint {
+	verifStmt(s.ssn, s, "checkpoint", len(s.operations))
 	return Checkpoint(len(s.operations))
 }
 
 func (s *Statement) Rollback(cp Checkpoint) error {
+	verifStmt(s.ssn, s, "rollback-begin", int(cp))
+	defer verifStmt(s.ssn, s, "rollback-end", int(cp))
 	if cp < 0 || int(cp) > len(s.operations) {
 		return fmt.Errorf("invalid checkpoint %d, statement has %d operations", cp, len(s.operations))
 	}
@@ -62,6 +65,7 @@ func (s *Statement) Rollback(cp Checkpoint) error {
 
 func (s *Statement) Evict(reclaimeeTask *pod_info.PodInfo, message string,
 	evictionMetadata eviction_info.EvictionMetadata) error {
+	verifStmt(s.ssn, s, "op-begin", len(s.operations))
 	// Update status in session
 	job, jobFound := s.ssn.ClusterInfo.PodGroupInfos[reclaimeeTask.Job]
 	if !jobFound {
@@ -195,6 +199,7 @@ func (s *Statement) unevict(
 }
 
 func (s *Statement) Pipeline(task *pod_info.PodInfo, hostname string, updateTaskIfExistsOnNode bool) error {
+	verifStmt(s.ssn, s, "op-begin", len(s.operations))
 	// Only update status in session
 	job, foundJob := s.ssn.ClusterInfo.PodGroupInfos[task.Job]
 	node, foundNode := s.ssn.ClusterInfo.Nodes[hostname]
@@ -295,6 +300,7 @@ func (s *Statement) Pipeline(task *pod_info.PodInfo, hostname string, updateTask
 }
 
 func (s *Statement) Allocate(task *pod_info.PodInfo, hostname string) error {
+	verifStmt(s.ssn, s, "op-begin", len(s.operations))
 	node := s.ssn.ClusterInfo.Nodes[hostname]
 
 	// Only update status in session
@@ -520,6 +526,8 @@ func (s *Statement) clearOperations() {
 }
 
 func (s *Statement) Discard() {
+	verifStmt(s.ssn, s, "discard-begin", 0)
+	defer verifStmt(s.ssn, s, "discard-end", 0)
 	if len(s.operations) == 0 {
 		// don't even print the info message
 		return
@@ -534,6 +542,8 @@ func (s *Statement) Discard() {
 }
 
 func (s *Statement) Commit() error {
+	verifStmt(s.ssn, s, "commit-begin", 0)
+	defer verifStmt(s.ssn, s, "commit-end", 0)
 	if len(s.operations) == 0 {
 		// don't even print the info message
 		return nil
